@@ -794,9 +794,54 @@ func (r *run) appendStruct(fr *frame, cur *node, x *ssa.Call, dst, src SliceV) V
 	}
 }
 
+// appendMany: append(dst, src...). The result has length len(dst)+len(src); it reuses dst's backing array
+// only if the capacity suffices (a free choice otherwise constrained by Go's semantics) and else lives in a
+// fresh array. In int mode the contents are described by quantified facts (dst's elements, then src's; in
+// the in-place case everything else in the backing array is unchanged); in bit-vector mode the contents of
+// the result are left unconstrained (weaker than Go, never unsound).
 func (r *run) appendMany(fr *frame, cur *node, x *ssa.Call, dst, src SliceV) Value {
-	r.unsupported("append of a slice with non-constant length")
-	return nil
+	c := r.C()
+	var cells []leafCell
+	if !r.leafCells(dst.Base.T, "", &cells) {
+		r.unsupported("append of elements of type %s", dst.Base.T)
+	}
+	newLen := r.iadd(dst.Len, src.Len)
+	inPlace := c.And(c.Fresh("append.inplace", smt.Bool), r.sle(newLen, dst.Cap))
+	newRef := r.newRef(cur)
+	resRef := c.Ite(inPlace, dst.Base.Idxs[0], newRef)
+	for _, lc := range cells {
+		heap := dst.Base.Heap + "[]" + lc.suffix
+		hs := r.heapSort(2, lc.sort)
+		h := cur.getPV(heap, hs)
+		srcHeap := src.Base.Heap + "[]" + lc.suffix
+		sh := h
+		if srcHeap != heap {
+			sh = cur.getPV(srcHeap, hs)
+		}
+		oldRow := c.Select(h, dst.Base.Idxs[0])
+		srcRow := c.Select(sh, src.Base.Idxs[0])
+		row := c.Fresh("append.row", hs.Elem)
+		if r.mode == "int" {
+			j := c.BoundVar("j", smt.Int)
+			lo := r.iadd(dst.Off, dst.Len)
+			hi := r.iadd(lo, src.Len)
+			pat := []*smt.Term{c.Select(row, j)}
+			r.assume(cur.alive, c.Forall([]*smt.Term{j}, c.Implies(c.And(r.sle(dst.Off, j), r.slt(j, lo)),
+				c.Eq(c.Select(row, j), c.Select(oldRow, j))), pat))
+			r.assume(cur.alive, c.Forall([]*smt.Term{j}, c.Implies(c.And(r.sle(lo, j), r.slt(j, hi)),
+				c.Eq(c.Select(row, j), c.Select(srcRow, r.iadd(src.Off, r.isub(j, lo))))), pat))
+			r.assume(cur.alive, c.Forall([]*smt.Term{j}, c.Implies(c.And(inPlace, c.Or(r.slt(j, lo), r.sle(hi, j))),
+				c.Eq(c.Select(row, j), c.Select(oldRow, j))), pat))
+		}
+		cur.setPV(heap, c.Store(h, resRef, row))
+	}
+	newCap := c.Fresh("appendcap", r.idx())
+	r.assume(c.True(), r.sle(newLen, newCap))
+	r.assume(c.True(), r.sle(newCap, r.idxConst(r.E.sliceBound())))
+	return SliceV{
+		Base: Loc{Heap: dst.Base.Heap, Idxs: []*smt.Term{resRef}, T: dst.Base.T},
+		Off:  dst.Off, Len: newLen, Cap: c.Ite(inPlace, dst.Cap, newCap),
+	}
 }
 
 func (r *run) copyOp(fr *frame, cur *node, x *ssa.Call, args []Value) Value {
@@ -838,7 +883,65 @@ func (e *Engine) verifiedPkg(path string) bool {
 	return false
 }
 
+// siteAsserts emits the assertions a contract places at this call site ("site CALLEE.K assert E"): E is
+// evaluated in the caller's state just before the call, local variables by their source names.
+func (r *run) siteAsserts(fr *frame, cur *node, fn *ssa.Function, site ssa.Instruction) {
+	short := shortName(fn.String())
+	ord := 0
+	found := false
+	for _, b := range fr.fn.Blocks {
+		for _, in := range b.Instrs {
+			ci, ok := in.(ssa.CallInstruction)
+			if !ok {
+				continue
+			}
+			if in == site {
+				found = true
+				break
+			}
+			if sc := ci.Common().StaticCallee(); sc != nil && shortName(sc.String()) == short {
+				ord++
+			}
+		}
+		if found {
+			break
+		}
+	}
+	if !found {
+		return
+	}
+	key := fmt.Sprintf("%s.%d", short, ord)
+	cls := fr.fc.Sites[key]
+	if len(cls) == 0 {
+		return
+	}
+	if !r.usedSites[key] {
+		// cover: the site is reachable under the assumptions (else its assertions hold vacuously)
+		r.obls = append(r.obls, &Obligation{Name: r.name + "#vacuity[site " + key + "]", Kind: "vacuity", Props: r.props, Func: r.name,
+			Facts: r.facts[:len(r.facts):len(r.facts)], Goal: cur.alive, Expect: "sat", Text: "call site " + key + " is reachable"})
+	}
+	r.usedSites[key] = true
+	en := fr.loopEnvAt(cur, r.E.pkgRefOf(fr.fn))
+	for k, cl := range cls {
+		for j, cj := range en.evalGoalParts(cl.Expr) {
+			name := fmt.Sprintf("site[%s", key)
+			if cl.Label != "" {
+				name += "." + cl.Label
+			} else if len(cls) > 1 {
+				name += fmt.Sprintf(".%d", k)
+			}
+			if j > 0 {
+				name += fmt.Sprintf(".c%d", j)
+			}
+			r.oblige("assert", name+"]", cur.alive, cj, "assert "+cl.Text+" (at call "+key+")")
+		}
+	}
+}
+
 func (r *run) callFunction(fr *frame, cur *node, fn *ssa.Function, args []Value, bindings []Value, site ssa.Instruction) (Value, *node) {
+	if fr != nil && fr.parent == nil && fr.fc != nil && len(fr.fc.Sites) > 0 && site != nil && r.dry == 0 {
+		r.siteAsserts(fr, cur, fn, site)
+	}
 	fc := r.E.ContractFor(fn)
 	switch {
 	case fc != nil && fc.Transparent:
